@@ -459,5 +459,31 @@ func TestVerifC16Blank(t *testing.T) {
 	if !found {
 		r.Violate("blank-function/check", fmt.Sprintf("`func _(a int) int { ... }` at b.go:7 has a body but is not fingerprinted (report lists %v)", listed), nil)
 	}
+	// the same for a METHOD declared with the blank name
+	root2 := filepath.Join(scratch, "blank", "method")
+	os.MkdirAll(root2, 0o755)
+	src2 := "package blank\n\ntype T struct{ k int }\n\nfunc (t T) Named(a int) int {\n\treturn a + t.k\n}\n\nfunc (t T) _(a int) int {\n\tif a > 2 {\n\t\treturn a * t.k\n\t}\n\treturn a\n}\n"
+	os.WriteFile(filepath.Join(root2, "m.go"), []byte(src2), 0o644)
+	cmd2 := exec.Command(sfw, "check", "--no-sandbox", root2)
+	var stdout2 strings.Builder
+	cmd2.Stdout = &stdout2
+	cmd2.Run()
+	r.Eval()
+	r.Nontrivial("blank-method/check")
+	var out2 []models.FileOutput
+	json.Unmarshal([]byte(stdout2.String()), &out2)
+	found2 := false
+	var listed2 []string
+	for _, fo := range out2 {
+		for _, fn := range fo.Functions {
+			listed2 = append(listed2, fmt.Sprintf("%s@%d", fn.Function, fn.Line))
+			if fn.Line == 9 {
+				found2 = true
+			}
+		}
+	}
+	if !found2 {
+		r.Violate("blank-method/check", fmt.Sprintf("`func (t T) _(a int) int { ... }` at m.go:9 has a body but is not fingerprinted (report lists %v)", listed2), nil)
+	}
 }
 
